@@ -746,7 +746,8 @@ pub fn gen_sched(rng: &mut Rng, thorough: bool, out: &mut Vec<String>) {
 pub fn gen_sched_read(rng: &mut Rng, thorough: bool, out: &mut Vec<String>) {
     let rt = rt();
     let bound = if thorough { 3 } else { 2 };
-    for (cfg, rcache) in [("wv1", "none"), ("exp", "none"), ("wv1", "default"), ("exp", "1ms")] {
+    // `same:<mode>`: the readers share the writer's storage manager and reads have latency (cache fills race the commit)
+    for (cfg, rcache) in [("wv1", "none"), ("exp", "same:1ms"), ("wv1", "same:default"), ("exp", "none"), ("wv1", "default"), ("exp", "1ms"), ("wv1", "same:1ms"), ("exp", "same:default")] {
         out.push(format!("fx.reset {cfg} none off"));
         out.push(format!("ck {}", key_hex(&rt)));
         let pool = user_pool(rng, 4);
@@ -770,7 +771,7 @@ pub fn gen_sched_read(rng: &mut Rng, thorough: bool, out: &mut Vec<String>) {
         out.push(format!("sch.read {bound} {rcache} lookup {u2} | epochhash || {batch}"));
         out.push(format!("sch.read {bound} {rcache} audit 0 2 || {batch}"));
         out.push(format!("sch.read {} {rcache} history {u0} recent:1 | audit 1 2 || {batch}", bound.min(2)));
-        if !thorough && rcache == "default" {
+        if !thorough && rcache == "same:default" {
             break;
         }
     }
